@@ -174,6 +174,10 @@ def run(chk, prog, tier):
     check_canon_reads(chk, prog)
     check_merge_fixpoint(chk, prog)
     check_predict_stages(chk, prog)
+    # containers are part of the database: hash-consing and its index must stay consistent through every rebuild variant
+    from . import c14
+    c14.check_siblings(chk, prog)
+    c14.check_container_indexed(chk, prog)
     # one live row per key, as seen by every observer
     from . import c05, c16
     c05.check_insert_after_probe(chk, prog)
